@@ -93,6 +93,8 @@ structure S where
   pendingAck : Bytes := []
   big : Option Nat := none            -- c.bigMessage.Size while the window is open
   txN : Nat := 0
+  reconnectWait : Nat := 0             -- nanoseconds; the ramp-up state of ReadBackoff
+  lastRs : Option Err := none          -- the error of the last ReadSlices return (none: a message); kept by the driver
   txs : List Tx := []
   ping : Option String := none        -- tag of the Ping call owning the slot
   nextEx : Nat := 0
@@ -414,7 +416,7 @@ def S.connectFinish (s : S) (clean : Bool) (prev : Option Conn) : S × ConnectRe
         | some e =>
           if e == mkErr ["gate"] then (s, .unsupported "write gate inside resend") else
           ((({ s.closeConn with link := .down }).failWaiters (mkErr ["down"])), .done (some e))
-        | none => ({ s with link := .live, readConn := true }, .done none)
+        | none => ({ s with link := .live, readConn := true, reconnectWait := 0 }, .done none)
 
 /-- `connect` (client.go:888-955) with `dialAndConnect` and `handshake` inlined -/
 def S.connect (s : S) (fromPrologue : Bool) : S × ConnectResult :=
@@ -1107,6 +1109,31 @@ def S.release (s : S) (o : Option WPol) : S :=
       let (s, e) := ({ s with closers := rest }).disconnectNow
       s.emit (.ret tag e)
     | _ => s
+
+/-! ### ReadBackoff -/
+
+/-- `ReadBackoff` idle time (client.go:1141-1170): 1 s when the connection is still there (Persistence error), the
+maximum for a refusal, otherwise the doubling ramp clamped to [min, max]. Returns the idle time and the new ramp state. -/
+def readBackoffIdle (wait min max : Nat) (readConnPresent refused : Bool) : Nat × Nat :=
+  if readConnPresent then (1000000000, wait)
+  else if refused then (max, wait)
+  else
+    let idle := Nat.min (Nat.max wait min) max
+    (idle, idle * 2)
+
+inductive Backoff | now | never | idle (ns : Nat)
+deriving DecidableEq, Repr
+
+/-- `ReadBackoff(err)` for the error the last ReadSlices returned (`none`: it returned a message) -/
+def S.readBackoff (s : S) (err : Option Err) (minW maxW : Nat) : S × Backoff :=
+  match err with
+  | none => (s, .now)
+  | some e =>
+    if s.big.isSome then (s, .now) else
+    if e.contains "closed" then (s, .never) else
+    let refused := e.any (·.startsWith "refused")
+    let (idle, w) := readBackoffIdle s.reconnectWait minW maxW s.readConn refused
+    ({ s with reconnectWait := w }, .idle idle)
 
 /-! ### Session set-up -/
 
